@@ -380,6 +380,14 @@ FUNCS = [
 	dict(name='siglist_getitem', file='util/indexing.py', qual='AdvancedIndexingMixin.__getitem__', module='PySigListGetitem', env=[],
 	     params=[('self__list', LIST(LIST(INT))), ('index', ('idx',))], ret=('lsel',), split_loop_targets=True, **SIGLIST_SELF,
 	     opaque=GETITEM_OPAQUE, stmt_opaque=getitem_stmt_opaque('(((s.self__list).length : Nat) : Int)')),
+	# --- db/refdb.py: which two files of a database directory are loaded (environment DIR: the names `path.iterdir()` yields; the two set
+	#     comprehensions are read as a whole; the local helper `check_single_match` is inlined at its two call sites)
+	dict(name='locate_files', file='db/refdb.py', qual='ReferenceDatabase.locate_files', module='PyLocate', env=[('DIR', 'List (List Char)')], strings='plain',
+	     params=[('cls', ('obj',)), ('path', STR)], ret=TUP(STR, STR), inline_local_defs=True,
+	     calls={'Path': ('{0}', STR, [])},
+	     opaque={"{f for f in path.iterdir() if f.suffix in ('.gdb', '.db')}": ('(DIR.filter (fun f => Py.pathSuffix f == ".gdb".toList || Py.pathSuffix f == ".db".toList))', SET(STR)),
+	             "{f for f in path.iterdir() if f.suffix in ('.gs', '.h5')}": ('(DIR.filter (fun f => Py.pathSuffix f == ".gs".toList || Py.pathSuffix f == ".h5".toList))', SET(STR))},
+	     methods={('set', 'pop'): ('(({self}).headD [])', STR, [('({self}).isEmpty', 'KeyError')], [])}),
 ]
 
 EXC = {'ValueError', 'TypeError', 'IndexError', 'KeyError', 'AttributeError', 'AssertionError', 'RuntimeError'}
@@ -2001,6 +2009,59 @@ def self_attrs_to_names(node: ast.FunctionDef, attrs) -> ast.FunctionDef:
 	return ast.fix_missing_locations(R().visit(copy.deepcopy(node)))
 
 
+def inline_local_defs(node: ast.FunctionDef) -> ast.FunctionDef:
+	"""A helper defined inside the function (`def h(p, q): <statements without return / yield / nested def>`) whose every use is an expression
+	statement `h(a, b)` with names or constants as arguments: each call is replaced by the helper's statements with the parameters replaced
+	by the arguments (the helper's own locals are renamed `h_<name>`; names of the enclosing function it reads stay as they are)."""
+	import copy
+	node = copy.deepcopy(node)
+	helpers = {st.name: st for st in node.body if isinstance(st, ast.FunctionDef)}
+	if not helpers:
+		return node
+	for h in helpers.values():
+		if (h.args.vararg or h.args.kwarg or h.args.kwonlyargs or h.args.defaults or h.decorator_list
+				or any(isinstance(x, (ast.Return, ast.Yield, ast.YieldFrom, ast.FunctionDef, ast.Lambda, ast.Global, ast.Nonlocal)) for st in h.body for x in ast.walk(st))):
+			raise Untranslatable(f'local helper {h.name}: only plain statements without return are inlined')
+	uses = [x for x in ast.walk(node) if isinstance(x, ast.Name) and x.id in helpers]
+
+	def expand(stmts):
+		out = []
+		for st in stmts:
+			if isinstance(st, ast.FunctionDef) and st.name in helpers and st in node.body:
+				continue
+			if (isinstance(st, ast.Expr) and isinstance(st.value, ast.Call) and isinstance(st.value.func, ast.Name) and st.value.func.id in helpers):
+				h = helpers[st.value.func.id]
+				call = st.value
+				if call.keywords or len(call.args) != len(h.args.args) or not all(isinstance(a, (ast.Name, ast.Constant)) for a in call.args):
+					raise Untranslatable(f'call of local helper {h.name}: arguments must be names or constants')
+				sub = {p.arg: a for p, a in zip(h.args.args, call.args)}
+				assigned = {t.id for x in h.body for y in ast.walk(x) if isinstance(y, (ast.Assign, ast.AugAssign, ast.For))
+				            for t in ast.walk(y.targets[0] if isinstance(y, ast.Assign) else y.target) if isinstance(t, ast.Name)}
+				if assigned & set(sub):
+					raise Untranslatable(f'local helper {h.name} assigns to its parameter')
+
+				class R(ast.NodeTransformer):
+					def visit_Name(self, n):
+						if n.id in sub:
+							return copy.deepcopy(sub[n.id])
+						if n.id in assigned:
+							return ast.copy_location(ast.Name(id=f'{h.name}_{n.id}', ctx=n.ctx), n)
+						return n
+				body = [R().visit(copy.deepcopy(x)) for x in h.body if not (isinstance(x, ast.Expr) and isinstance(x.value, ast.Constant))]
+				uses.remove(call.func)
+				out += body
+				continue
+			for fld in ('body', 'orelse', 'finalbody'):
+				if hasattr(st, fld) and isinstance(getattr(st, fld), list) and not isinstance(st, ast.FunctionDef):
+					setattr(st, fld, expand(getattr(st, fld)))
+			out.append(st)
+		return out
+	node.body = expand(node.body)
+	if uses:
+		raise Untranslatable(f'local helper {uses[0].id} is used other than as a call statement')
+	return ast.fix_missing_locations(node)
+
+
 def find_def(tree: ast.Module, qual: str):
 	parts = qual.split('.')
 	body = tree.body
@@ -2055,6 +2116,8 @@ def regenerate(repo: Path, out_dir: Path, stub: set = frozenset()) -> dict:
 			have = [n for n, _ in d['params'] if not n.startswith('self_')]
 			if [mangle(w) for w in want] != have or node.args.vararg or node.args.kwarg:
 				raise Untranslatable(f'parameters of {d["qual"]} are {want}, the declaration expects {have}')
+			if d.get('inline_local_defs'):
+				node = inline_local_defs(node)
 			node = rename_locals(node)
 			if d.get('split_loop_targets'):
 				node = split_loop_targets(node)
